@@ -204,8 +204,11 @@ Inductive event :=
 Definition init : st := mkSt [] [] None None 0.
 
 (* [reset]: what happens to the shared pieces when a computed block is dropped.
-   false = the code as it stands: the struct copy shares the refcount map and the interior nodes, both stay mutated;
-   true  = the module's trie is re-read from the committed root (fresh map, committed trie) before the next block. *)
+   true  = the code as it stands (since /repo commit cb1c052, finding F30): AddMPTBatch notices that its previous result
+           was never passed to UpdateCurrentLocal and re-reads the module's trie from the committed root (fresh map,
+           committed trie) before computing the next block;
+   false = the code before that commit: the struct copy shares the refcount map and the interior nodes with the
+           module's trie, both stay as the dropped computation left them. *)
 Definition step (reset : bool) (m : mode) (s : st) (e : event) : option st :=
   match e with
   | EBlock T' ops =>
